@@ -152,6 +152,7 @@ func init() {
 			{Name: "fieldlens", TShards: 2, Run: lengthUnit("bed")},
 			{Name: "parallel", Race: true, Run: codecParallel("bed")},
 			{Name: "histories", Run: codecHistories("bed")},
+			{Name: "readerzoo", TShards: 4, Run: zooUnit("bed")},
 			firstCallUnit(firstCodec("bed")),
 		},
 	})
